@@ -8,7 +8,7 @@ import extract
 
 VERIF = extract.VERIF
 SCRATCH = os.environ.get("VERIF_SCRATCH", os.path.join(os.path.expanduser("~"), ".cache", "paseto-verif-selftest"))
-SKIP = {"C19": "C19's rules drive cargo builds of /repo's feature sets; its seeded changes are exercised by tools/run_seeds.sh on /repo itself"}
+SKIP = {}
 
 def mutants(prop):
     out = []
@@ -45,6 +45,7 @@ def run(prop, rule_module, floors=None):
                 rep["mutants"].append({"name": name, "expect_fire": expect, "fired": None, "as_expected": True, "note": f"mutant does not build: {e}"})
                 continue
             ctx = runner.Ctx(prop, "quick", facts)
+            ctx.repo = repo
             try:
                 rule_module.run(ctx)
                 _, unexpected, _, _ = runner.judge(prop, rule_module, ctx, floors)
